@@ -45,6 +45,10 @@ func main() {
 		}
 		n, _ := strconv.Atoi(os.Args[4])
 		os.Exit(checks.XRun(string(b), inp, n))
+	case "randscan": // verif randscan <seed> <n>
+		sd, _ := strconv.ParseInt(os.Args[2], 10, 64)
+		n, _ := strconv.Atoi(os.Args[3])
+		os.Exit(checks.RandScan(sd, n))
 	case "reduce": // verif reduce replay.json
 		os.Exit(checks.SemReduce(os.Args[2]))
 	case "worker-session":
